@@ -28,7 +28,7 @@ for d in sorted(glob.glob(ROOT + "/C*")):
     r = res.get(sid)
     found = None
     if r:
-        found = r["rc"] == 1 and "no-failing-input-found" not in r["lines"]
+        found = r["rc"] == 1 and r["lines"].count("VIOLATION") > r["lines"].count("no-failing-input-found")
     meta = {
         "seed": sid, "property": pid, "property_title": props[pid]["title"],
         "change": title[:300],
